@@ -15,7 +15,12 @@ import (
 	"fmt"
 	"math"
 	"math/big"
+	"time"
 )
+
+// watchdog bounds every sampler call (a scripted Source panics when it runs dry, so a sampler
+// that never fills its batch ends with that panic rather than hanging).
+const watchdog = 20 * time.Second
 
 // script is a fake math/rand/v2 Source that plays back a queue of values.
 // rand.Rand.Float64 is float64(src.Uint64()<<11>>11) / (1<<53) (Go 1.22+), so a
